@@ -86,6 +86,11 @@ type PathSample struct {
 }
 
 type Explorer struct {
+	// IsKnown classifies a violation as a listed known finding (set by the runner)
+	IsKnown        func(*Violation) bool
+	continueKnown  bool
+	KnownContinued int
+	knownSeen      map[string]int
 	ctx    *smt.Ctx
 	solver *smt.Solver
 
@@ -196,6 +201,7 @@ func (x *Explorer) beginPath() {
 	x.instrs = 0
 	x.expectPanic = ""
 	x.mapReverse = false
+	x.continueKnown = false
 	x.solver.Push()
 }
 
@@ -499,6 +505,25 @@ func (x *Explorer) assert(v value, id string) {
 		}
 		x.asserts = append(x.asserts, id+":VIOLATED")
 		x.recordViolation("assert", id, "assertion is false on this path", x.model)
+		if x.continueKnown && x.IsKnown != nil {
+			// a harness that resynchronises its model after a listed known
+			// finding goes on, so that a different violation further down
+			// the same history is still found
+			v := &x.Violations[len(x.Violations)-1]
+			if x.IsKnown(v) {
+				v.Known = true
+				x.KnownContinued++
+				if x.knownSeen == nil {
+					x.knownSeen = map[string]int{}
+				}
+				key := v.AssertID + "|" + strings.Join(v.Tags, ",")
+				x.knownSeen[key]++
+				if x.knownSeen[key] > 2 {
+					x.Violations = x.Violations[:len(x.Violations)-1]
+				}
+				return
+			}
+		}
 		panic(pathAbort{EndViolation, id})
 	case symBool:
 		x.symbolic = true
